@@ -189,6 +189,14 @@ func newGSUB(table tables.Layout) (GSUB, error) {
 				return GSUB{}, errors.New("GSUB: lookup subtable without coverage")
 			}
 
+			// all the subtables of a lookup have the same type, but an Extension lookup could mix them:
+			// the reverse chaining substitution is applied backward and in place, the other ones forward
+			// with an output buffer (a single substitution applied backward never ends)
+			_, isReverse := subtables[j].(tables.ReverseChainSingleSubs)
+			if _, firstIsReverse := subtables[0].(tables.ReverseChainSingleSubs); isReverse != firstIsReverse {
+				return GSUB{}, errors.New("GSUB: lookup mixing reverse chaining and other substitutions")
+			}
+
 			// sanitize each lookup
 			switch subtable := subtable.(type) {
 			case tables.MultipleSubs:
